@@ -3,6 +3,7 @@ package props
 import (
 	"crypto/sha256"
 	"fmt"
+	"math/big"
 	"strings"
 	"sync"
 	"unsafe"
@@ -234,6 +235,25 @@ func c07randBytes(r *vf.Rand, n int) []byte {
 		for j := range b {
 			b[j] = 0xff
 		}
+	case 4: // a run of zero bytes in the middle
+		a := r.Intn(n)
+		l := 1 + r.Intn(24)
+		for j := a; j < n && j < a+l; j++ {
+			b[j] = 0
+		}
+	case 5: // d * 58^k (+ small): digit strings with long runs of zero digits
+		v := new(big.Int).Exp(big.NewInt(58), big.NewInt(int64(r.Intn(n*8/6+1))), nil)
+		v.Mul(v, big.NewInt(int64(1+r.Intn(3000))))
+		if r.Bool() {
+			v.Add(v, big.NewInt(int64(r.Intn(58*58*58))))
+		}
+		vb := v.Bytes()
+		if len(vb) <= n {
+			for j := range b {
+				b[j] = 0
+			}
+			copy(b[n-len(vb):], vb)
+		}
 	case 2: // small leading byte (digit-count boundary)
 		b[0] = byte(1 + r.Intn(3))
 	case 3: // zeros then a power of 58-ish small number
@@ -275,6 +295,16 @@ func c07alphaString(r *vf.Rand, n int) []byte {
 		case 1:
 			for j := range s {
 				s[j] = 'z'
+			}
+		case 2: // a run of one digit somewhere inside (zero digits '1' most of the time)
+			ch := byte('1')
+			if r.Chance(1, 4) {
+				ch = ref.B58Alphabet[r.Intn(58)]
+			}
+			a := r.Intn(n)
+			l := 1 + r.Intn(40)
+			for j := a; j < n && j < a+l; j++ {
+				s[j] = ch
 			}
 		}
 	}
@@ -519,7 +549,25 @@ func c07validBech(r *vf.Rand, total int) (string, []byte) {
 }
 
 var c07bechClasses = []string{"valid-lower", "valid-upper", "mixed-case", "foreign-in-data", "foreign-in-hrp", "separator",
-	"over-length", "short-checksum", "symbol-corruption", "garbage", "tiny", "length-boundary"}
+	"over-length", "short-checksum", "symbol-corruption", "garbage", "tiny", "length-boundary", "other-checksum-constant"}
+
+// c07bechWithConstant encodes (hrp, data) like BIP173 but with the final xor
+// constant k instead of 1 (k = 0x2bc830a3 is BIP350's bech32m).
+func c07bechWithConstant(hrp string, data []byte, k uint32) string {
+	values := append(ref.Bech32HrpExpand(hrp), data...)
+	values = append(values, 0, 0, 0, 0, 0, 0)
+	pm := ref.Bech32Polymod(values) ^ k
+	var sb strings.Builder
+	sb.WriteString(hrp)
+	sb.WriteByte('1')
+	for _, d := range data {
+		sb.WriteByte(ref.CashCharset[d])
+	}
+	for i := 0; i < 6; i++ {
+		sb.WriteByte(ref.CashCharset[(pm>>uint(5*(5-i)))&31])
+	}
+	return sb.String()
+}
 
 func c07bechDecodeStream(c *vf.Ctx, i int) {
 	r := c.R
@@ -644,6 +692,15 @@ func c07bechDecodeStream(c *vf.Ctx, i int) {
 			s = hrp + "1" + string(b)
 		default: // the checksum of a shorter payload cut to five symbols
 			s = valid[:len(valid)-6] + valid[len(valid)-5:]
+		}
+	case "other-checksum-constant":
+		k := []uint32{0x2bc830a3, 0, 2, 0x3fffffff, r.Uint32() & 0x3fffffff}[r.Intn(5)]
+		if k == 1 {
+			k = 0x2bc830a3
+		}
+		s = c07bechWithConstant(hrp, data, k)
+		if r.Bool() {
+			s = asciiUpper(s)
 		}
 	case "symbol-corruption":
 		b := []byte(valid)
